@@ -109,7 +109,7 @@ def ensure_tools():
 
 def ensure_repo_build():
     """CLI and verif-tagged test drivers built from /repo's current working tree; cached by tree hash"""
-    rh = repo_hash()
+    rh = repo_hash() + "-" + tools_hash()[:8]        # the regenerated facts depend on factgen as well
     d = os.path.join(CACHE, "repo-" + rh)
     if os.path.exists(os.path.join(d, "ok")):
         return d
